@@ -15,6 +15,14 @@ import (
 //   gen_uid_limit : Z            ZA: "if uidLen >= <limit>"
 //   gen_rand_div, gen_rand_extra randFieldElement: make([]byte, params.BitSize/<div>+<extra>)
 //   gen_decrypt_min : Z          Decrypt: "if len(data) < <expr>" (the constant expression, evaluated)
+// byte layout of the ciphertext, per function f in {Encrypt, Decrypt, CipherMarshal, CipherUnmarshal, ZA, keCoordBytes}:
+//   gen_<f>_slices : list Z      every slice expression x[lo:hi] in source order as the pair lo, hi
+//                                (-1 = bound absent or not a constant, e.g. len(data)-32)
+//   gen_<f>_offsets : list Z     every constant c in an index expression x[c], x[c+i] or x[i+c], in source order
+//   gen_<f>_widths : list Z      every constant K of a comparison "n < K" / "len(x) > K" / "len(x) != K" in source order
+//   gen_<f>_bytes : list Z       the elements of every []byte{...} literal, in source order
+//   gen_<f>_subs : list Z        every literal operand of a subtraction (32-n, len(data)-96, ...), in source order
+//   gen_zeroByteSlice : list N   the literal returned by zeroByteSlice()
 func init() {
 	register("sm2sig", func(c *Ctx) error {
 		p, err := LoadPkg(c, "sm2", "sm2.go")
@@ -106,6 +114,97 @@ func init() {
 		if div == nil {
 			return fmt.Errorf("randFieldElement: buffer is not make([]byte, params.BitSize/<c>+<c>)")
 		}
+		zlist := func(xs []*big.Int) string {
+			out := "["
+			for i, x := range xs {
+				if i > 0 {
+					out += "; "
+				}
+				if x.Sign() < 0 {
+					out += "(" + x.String() + ")"
+				} else {
+					out += x.String()
+				}
+			}
+			return out + "]"
+		}
+		minus1 := big.NewInt(-1)
+		bound := func(e ast.Expr) *big.Int {
+			if e == nil {
+				return minus1
+			}
+			if v, err := p.Eval(e); err == nil {
+				return v
+			}
+			return minus1
+		}
+		layout := func(fn string) (slices, offsets, widths, bytesLit, subs []*big.Int, err error) {
+			f, ok := p.Funcs[fn]
+			if !ok {
+				return nil, nil, nil, nil, nil, fmt.Errorf("%s not found", fn)
+			}
+			ast.Inspect(f, func(n ast.Node) bool {
+				switch t := n.(type) {
+				case *ast.SliceExpr:
+					slices = append(slices, bound(t.Low), bound(t.High))
+				case *ast.IndexExpr:
+					if v, err := p.Eval(t.Index); err == nil {
+						offsets = append(offsets, v)
+					} else if b, ok := t.Index.(*ast.BinaryExpr); ok && b.Op == token.ADD {
+						if v, err := p.Eval(b.X); err == nil {
+							offsets = append(offsets, v)
+						} else if v, err := p.Eval(b.Y); err == nil {
+							offsets = append(offsets, v)
+						}
+					}
+				case *ast.BinaryExpr:
+					if t.Op == token.SUB {
+						for _, o := range []ast.Expr{t.X, t.Y} {
+							if _, isLit := o.(*ast.BasicLit); isLit {
+								if v, err := p.Eval(o); err == nil {
+									subs = append(subs, v)
+								}
+							}
+						}
+					}
+					if t.Op == token.LSS || t.Op == token.GTR || t.Op == token.NEQ {
+						if _, isLit := t.Y.(*ast.BasicLit); isLit {
+							if v, err := p.Eval(t.Y); err == nil {
+								widths = append(widths, v)
+							}
+						}
+					}
+				case *ast.CompositeLit:
+					if at, ok := t.Type.(*ast.ArrayType); ok {
+						if id, ok := at.Elt.(*ast.Ident); ok && id.Name == "byte" {
+							if xs, err := p.IntList(t); err == nil {
+								bytesLit = append(bytesLit, xs...)
+							}
+						}
+					}
+				}
+				return true
+			})
+			return
+		}
+		var zf *ast.FuncDecl
+		if f, ok := p.Funcs["zeroByteSlice"]; ok {
+			zf = f
+		} else {
+			return fmt.Errorf("zeroByteSlice not found")
+		}
+		var zeros []*big.Int
+		ast.Inspect(zf, func(n ast.Node) bool {
+			if cl, ok := n.(*ast.CompositeLit); ok && zeros == nil {
+				if xs, err := p.IntList(cl); err == nil {
+					zeros = xs
+				}
+			}
+			return true
+		})
+		if zeros == nil {
+			return fmt.Errorf("zeroByteSlice does not return a byte literal")
+		}
 		v := NewV("constants of the SM2 signature / encryption / key exchange code", p, "sm2/sm2.go")
 		v.NList("gen_default_uid", uid)
 		v.Raw("\nOpen Scope Z_scope.\n")
@@ -115,6 +214,19 @@ func init() {
 		v.Z("gen_rand_div", div)
 		v.Z("gen_rand_extra", extra)
 		v.Z("gen_decrypt_min", dmin)
+		for _, fn := range []string{"Encrypt", "Decrypt", "CipherMarshal", "CipherUnmarshal", "ZA", "keCoordBytes"} {
+			sl, of, wi, by, su, err := layout(fn)
+			if err != nil {
+				return err
+			}
+			v.Raw(fmt.Sprintf("Definition gen_%s_slices : list Z := %s.\n", fn, zlist(sl)))
+			v.Raw(fmt.Sprintf("Definition gen_%s_offsets : list Z := %s.\n", fn, zlist(of)))
+			v.Raw(fmt.Sprintf("Definition gen_%s_widths : list Z := %s.\n", fn, zlist(wi)))
+			v.Raw(fmt.Sprintf("Definition gen_%s_bytes : list Z := %s.\n", fn, zlist(by)))
+			v.Raw(fmt.Sprintf("Definition gen_%s_subs : list Z := %s.\n", fn, zlist(su)))
+		}
+		v.Raw("Open Scope N_scope.\n")
+		v.NList("gen_zeroByteSlice", zeros)
 		return v.Write(c, "SM2SigParams.v")
 	})
 }
